@@ -1,6 +1,7 @@
 (* Model of dclab's basin resolution (executable definitions only).
 
-   Follows, for the tree with the two proposed C14 fixes applied,
+   Follows (tree with the fixes 28899f0 "basin without identifier" and
+   960b418 "local basin format from network datasets"),
      core.py     RTDCBase.basins_retrieve / features_basin / __contains__ /
                  __getitem__ / _get_basin_feature_data / ignore_basins
      feat_basin.py  Basin.ds / features / verify_basin / get_feature_data,
